@@ -10,7 +10,7 @@
 //! Panics are observed in the caller's task (catch_unwind) and in every task spawned meanwhile
 //! (process-wide panic hook counter).
 //!
-//! line: `np <svc> <tls 0|1> <tcpcheck 0|1> <method> <scheme|-> <host|-> <port|-> <path|-> <query|-> <ver> <hdr=val>*`
+//! line: `np <svc> <tls 0|1|2 (2: ALPN negotiates h2)> <tcpcheck 0|1> <method> <scheme|-> <host|-> <port|-> <path|-> <query|-> <ver> <hdr=val>*`
 //!       (`path` may also be `*`)
 //! obs : `<ok-STATUS | err-CLASS | panic | bad-request> <task panics> <rustls accepts the host as a server name 0|1>`
 use crate::rng::Rng;
@@ -41,13 +41,13 @@ const SCHEMES: &[&str] = &["http", "https", "ws", "wss", "http", "https", "foo",
 const METHODS: &[&str] = &["GET", "POST", "PUT", "DELETE", "HEAD", "OPTIONS", "PATCH", "CONNECT", "CONNECT", "TRACE", "PURGE", "GET", "GET"];
 const PATHS: &[&str] = &["-", "/", "/a", "/a/b/c", "/a%20b", "/~user/x;y=1", "//double", "*"];
 const QUERIES: &[&str] = &["-", "-", "q=1", "a=b&c=d", "redirect=http://other.example/p?z"];
-const HEADERS: &[&str] = &["accept=*/*", "connection=keep-alive", "connection=close", "transfer-encoding=chunked", "upgrade=websocket", "te=trailers", "x-custom=1",
+const HEADERS: &[&str] = &["connection=%ff", "x-bin=%80%fe", "te=%c3%28", "accept=*/*", "connection=keep-alive", "connection=close", "transfer-encoding=chunked", "upgrade=websocket", "te=trailers", "x-custom=1",
     "host=other.example", "host=", "content-length=0", "expect=100-continue", "user-agent=hdverif"];
 pub const VERSIONS: &[&str] = &["09", "10", "11", "11", "11", "2", "2", "3"];
 
 pub fn gen(r: &mut Rng, _i: u64) -> String {
     let svc = *r.pick(SVCS);
-    let tls = r.chance(1, 3) as u8;
+    let tls = match r.below(6) { 0 => 1, 1 | 2 => 2, _ => 0 };
     let tcpcheck = r.chance(1, 2) as u8;
     let method = *r.pick(METHODS);
     // URI forms: absolute (most), origin, authority, asterisk
@@ -70,12 +70,16 @@ pub fn exhaustive() -> Vec<String> {
     let forms = ["http example.com - / -", "https example.com 443 /a q=1", "https [::1] - / -", "https exa$mple.com - / -", "wss example.com - /ws -", "foo example.com - / -", "foo example.com 99 / -",
         "- - - /rel -", "- example.com 443 - -", "- - - * -", "http example.com - - -", "https other.test - / -", "http 127.0.0.1 8080 /a -"];
     for svc in ["client", "clientnp", "pool", "nopool", "connector"] {
-        for tls in [0, 1] {
+        for tls in [0, 1, 2] {
             for tc in [0, 1] {
                 for m in ["GET", "CONNECT", "OPTIONS", "POST"] {
                     for v in ["09", "10", "11", "2", "3"] {
                         for f in forms {
                             out.push(format!("np {svc} {tls} {tc} {m} {f} {v}"));
+                            if m == "GET" && (v == "11" || v == "2") && f.starts_with("http") {
+                                out.push(format!("np {svc} {tls} {tc} {m} {f} {v} connection=%ff"));
+                                out.push(format!("np {svc} {tls} {tc} {m} {f} {v} x-bin=%80%fe te=%c3%28"));
+                            }
                         }
                     }
                 }
@@ -108,6 +112,21 @@ impl tower::Service<http::request::Parts> for NpTransport {
     }
 }
 
+/// `%XX` in a header value token is that byte (opaque, non-ASCII header values are legal)
+fn unpercent(v: &str) -> Vec<u8> {
+    let b = v.as_bytes();
+    let mut out = vec![];
+    let mut i = 0;
+    while i < b.len() {
+        if b[i] == b'%' && i + 3 <= b.len() {
+            if let Some(x) = std::str::from_utf8(&b[i + 1..i + 3]).ok().and_then(|h| u8::from_str_radix(h, 16).ok()) { out.push(x); i += 3; continue; }
+        }
+        out.push(b[i]);
+        i += 1;
+    }
+    out
+}
+
 fn build_request(toks: &[&str]) -> Option<http::Request<Body>> {
     let (method, scheme, host, port, path, query, ver) = (toks[0], toks[1], toks[2], toks[3], toks[4], toks[5], toks[6]);
     let mut uri = String::new();
@@ -119,7 +138,7 @@ fn build_request(toks: &[&str]) -> Option<http::Request<Body>> {
     let mut b = http::Request::builder().method(method).uri(uri).version(version);
     for h in &toks[7..] {
         let (n, v) = h.split_once('=')?;
-        b = b.header(n, v);
+        b = b.header(n, http::HeaderValue::from_bytes(&unpercent(v)).ok()?);
     }
     let body = if method == "POST" || method == "PUT" { Body::from("payload") } else { Body::empty() };
     b.body(body).ok()
@@ -151,7 +170,10 @@ fn classify(e: &hyperdriver::client::Error) -> String {
 
 async fn run_case(toks: &[&str]) -> String {
     crate::tls::install();
-    let (svc, tls, tcpcheck) = (toks[0], toks[1] == "1", toks[2] == "1");
+    // tls: 0 = none; 1 = TLS, the client offers no ALPN; 2 = TLS, both sides offer h2 + http/1.1 (HTTP/2 is negotiated whatever
+    // version the request names)
+    let (svc, tls, tcpcheck) = (toks[0], toks[1] != "0", toks[2] == "1");
+    let alpn = if toks[1] == "2" { "both" } else { "-" };
     let Some(req) = build_request(&toks[3..]) else { return "bad-request 0 1".into() };
     let before = PANICS.load(Ordering::SeqCst);
 
@@ -163,7 +185,7 @@ async fn run_case(toks: &[&str]) -> String {
     let server = tokio::spawn(std::future::IntoFuture::into_future(Server::builder().with_acceptor(acceptor).with_make_service(make).with_auto_http().with_tokio()));
 
     let transport = NpTransport { inner: DuplexTransport::new(64 * 1024, client), tcpcheck };
-    let tls_cfg = if tls { Some(crate::tls::client_config("-")) } else { None };
+    let tls_cfg = if tls { Some(crate::tls::client_config(alpn)) } else { None };
 
     let fut = async move {
         macro_rules! inner { () => { tower::ServiceBuilder::new()
